@@ -43,7 +43,7 @@ def load_findings():
 def source_fingerprint(files):
     out = {}
     for f in files:
-        p = os.path.join('/repo', f)
+        p = os.path.join(os.environ.get('VERIF_REPO', '/repo'), f)
         try:
             with open(p, 'rb') as fh:
                 out[f] = hashlib.sha1(fh.read()).hexdigest()[:12]
@@ -226,6 +226,7 @@ def run_check(pid, tier, seed, workers, quiet=False):
         cov['states'] = len(agg.states)
         cov['transitions'] = agg.transitions
         cov['traces_validated_against_impl'] = agg.counts.get('traces_validated', agg.evals)
+    cov['code_under_test'] = os.environ.get('VERIF_REPO', '/repo') + '/src'
     ev = dict(
         property_id=pid, tier=tier, seed=seed, level=level, coverage=cov,
         assumptions=list(getattr(driver, 'ASSUMPTIONS', [])),
